@@ -215,6 +215,11 @@ def read (text : Bytes) (sw : Bool) : Ini := readLines sw (fileLines text)
 def readMissing (sw : Bool) : Ini :=
   { sections := [], currentTitle := nosection, indent := [], lines := [], modified := false, shouldwrite := sw, ok := false }
 
+/-- `IniFile(path, shouldwrite)` when the path opens but cannot be read (a directory): `end()` is false before the
+    first read, the read fails and returns an empty line, and `end()` (end of file **or read error**, the repaired
+    `TextFile::end`) is then true: the loop sees one empty line, as for an empty file -/
+def readUnreadable (sw : Bool) : Ini := readLines sw [[]]
+
 def openFile (file : Option Bytes) (sw : Bool) : Ini :=
   match file with
   | some t => read t sw
